@@ -24,6 +24,9 @@ type Config struct {
 	// TaintedFields: struct fields that are adversarial sources wherever they are loaded
 	// (FrameInfo.Width ...), keyed "pkgpath.Type.Field".
 	TaintedFields map[string]bool
+	// FieldPost: for a tainted field, the range established by the validator that every entry point
+	// runs first (computed in a first pass with FieldPostcondition); replaces the raw source.
+	FieldPost map[string]AV
 	// IntSize is the size of int/uint in bits (32 on GOARCH=386).
 	IntSize int
 	InModule func(fn *ssa.Function) bool
@@ -897,6 +900,13 @@ func fieldIsTainted(e *Engine, tn *types.TypeName, f int) bool {
 
 func (e *Engine) fieldVal(k fieldKey, t types.Type, tainted bool) AV {
 	if tainted {
+		if e.cfg.FieldPost != nil {
+			if st, ok := k.t.Type().Underlying().(*types.Struct); ok && k.t.Pkg() != nil && k.f < st.NumFields() {
+				if pv, ok := e.cfg.FieldPost[k.t.Pkg().Path()+"."+k.t.Name()+"."+st.Field(k.f).Name()]; ok {
+					return e.clip(pv, t)
+				}
+			}
+		}
 		return e.rawSource(t)
 	}
 	if a, ok := e.fields[k]; ok {
@@ -1578,8 +1588,9 @@ func nonNilError(v ssa.Value, at *ssa.BasicBlock, depth int) bool {
 	case *ssa.MakeInterface:
 		return true
 	case *ssa.UnOp:
-		if g, ok := x.X.(*ssa.Global); ok && strings.HasPrefix(g.Name(), "Err") {
-			return true
+		if g, ok := x.X.(*ssa.Global); ok && x.Type().String() == "error" {
+			_ = g
+			return true // a package-level sentinel error
 		}
 	case *ssa.Phi:
 		for _, ed := range x.Edges {
@@ -1870,3 +1881,65 @@ func (e *Engine) FieldMayBeZero(tn *types.TypeName, f int) bool { return e.hasZe
 
 // Analysed reports whether fn is part of the analysed set.
 func (e *Engine) Analysed(fn *ssa.Function) bool { return e.fs[fn] != nil }
+
+// FieldPostcondition: what is known about field key ("pkg.Type.Field") on every return of fn that
+// may carry a nil error, from the guards fn applies to its loads of that field. ok=false when fn
+// never loads the field.
+func (e *Engine) FieldPostcondition(fn *ssa.Function, key string) (AV, bool) {
+	s := e.fs[fn]
+	if s == nil {
+		return AV{}, false
+	}
+	var loads []*ssa.UnOp
+	var t types.Type
+	for _, b := range fn.Blocks {
+		for _, ins := range b.Instrs {
+			ld, ok := ins.(*ssa.UnOp)
+			if !ok || ld.Op != token.MUL {
+				continue
+			}
+			fa, ok := ld.X.(*ssa.FieldAddr)
+			if !ok {
+				continue
+			}
+			tn := namedStruct(fa.X.Type())
+			if tn == nil || tn.Pkg() == nil {
+				continue
+			}
+			st := tn.Type().Underlying().(*types.Struct)
+			if tn.Pkg().Path()+"."+tn.Name()+"."+st.Field(fa.Field).Name() == key {
+				loads = append(loads, ld)
+				t = ld.Type()
+			}
+		}
+	}
+	if len(loads) == 0 {
+		return AV{}, false
+	}
+	ei := errIndex(fn)
+	r := Bottom()
+	for _, b := range fn.Blocks {
+		if len(b.Instrs) == 0 {
+			continue
+		}
+		ret, ok := b.Instrs[len(b.Instrs)-1].(*ssa.Return)
+		if !ok {
+			continue
+		}
+		if ei >= 0 && ei < len(ret.Results) && nonNilError(ret.Results[ei], b, 0) {
+			continue
+		}
+		v := e.rawSource(t)
+		for _, ld := range loads {
+			if ld.Block() == b || ld.Block().Dominates(b) {
+				v = meetAV(v, e.at(s, ld, b, 0))
+			}
+		}
+		r = Join(r, v)
+	}
+	if r.IsBottom() {
+		return AV{}, false
+	}
+	r.Taint, r.Raw = true, true
+	return r, true
+}
